@@ -244,6 +244,17 @@ theorem C17_total (g : InMemGeff α) (hwf : WF g) : ∃ t, geffToDataframes g = 
   obtain ⟨⟨ed, ew⟩, h2⟩ := addProps_total g.edgeIds.length g.edgeProps (edgeIdCols g, []) hwf.2
   exact ⟨⟨nd, nw, ed, ew⟩, by simp only [geffToDataframes, h1, h2]⟩
 
+/-- **C17_history_independent**: in any sequence of exports (one process) the i-th pair of tables is
+the export of the i-th store alone — no column, mask or warning leaks between calls.  Trivial in the
+model (no state); the harness runs real export sequences with repeated property names and compares
+every step with `geffToDataframes` of that store (`C17:history-dependent-output`). -/
+theorem C17_history_independent (gs : List (InMemGeff α)) :
+    (exportSeq gs).length = gs.length ∧
+    ∀ (i : Nat) (g : InMemGeff α), gs[i]? = some g → (exportSeq gs)[i]? = some (geffToDataframes g) := by
+  refine ⟨by simp [exportSeq], ?_⟩
+  intro i g h
+  simp [exportSeq, h]
+
 /-! ## CSV files: an existing CSV is only replaced on request
 
 `geffToCsv fs base nodeCsv edgeCsv overwrite = (raised, fs')` models the two `to_csv` calls of
